@@ -333,7 +333,9 @@ def olsLineAbs (pts : List (Rat × Rat)) : Rat × Rat :=
   let inv := rabs (1 / olsDen pts)
   ((beta * gamma + alpha * delta) * inv, (K * delta + alpha * gamma) * inv)
 
-def covEntryAbs (n a b : Rat) (i j : Nat) : Rat :=
+/-- `covEntryAbs n a b i j = b²·X + a²·Y + a·b·Z` with every subtraction of `covEntry` turned into an
+    addition of absolute values; returns the coefficients `(X, Y, Z)` (small rationals). -/
+def covCoefAbs (n : Rat) (i j : Nat) : Rat × Rat × Rat :=
   let ri : Rat := (i : Rat)
   let rj : Rat := (j : Rat)
   let mn : Rat := ((min i j : Nat) : Rat)
@@ -342,10 +344,7 @@ def covEntryAbs (n a b : Rat) (i j : Nat) : Rat :=
   let term2 := (sqr mn + sqr (sqr mn)) / den
   let u := n + 1 - ri - rj
   let term3 := (if 0 ≤ ri + rj - n - 2 then sqr (sqr u) + sqr u else 0) / den
-  let base := sqr b / 3 * (term1 + term2 + term3)
-  let t4 := (sqr a * 2 + 4 * a * b * mn) / rabs (n - mn + 1)
-  let t5 := sqr a * (rabs n + ri + rj + 1) / den
-  base + (t4 + t5)
+  ((term1 + term2 + term3) / 3, 2 / rabs (n - mn + 1) + (rabs n + ri + rj + 1) / den, 4 * mn / rabs (n - mn + 1))
 
 def olsVarSlopeAbs (lags : List Rat) (n a b : Rat) : Rat :=
   let K : Rat := (lags.length : Rat)
@@ -353,8 +352,11 @@ def olsVarSlopeAbs (lags : List Rat) (n a b : Rat) : Rat :=
   let beta := (lags.map fun l => l * l).sum
   let den := sqr (K * beta - sqr alpha)
   let il := lags.zipIdx
-  (il.flatMap fun r => il.map fun c =>
-    (rabs (c.1 * K) + rabs alpha) * (rabs (r.1 * K) + rabs alpha) * covEntryAbs n a b (c.2 + 1) (r.2 + 1) / den).sum
+  let acc := il.foldl (fun acc r => il.foldl (fun (acc : Rat × Rat × Rat) c =>
+    let w := (rabs (c.1 * K) + rabs alpha) * (rabs (r.1 * K) + rabs alpha)
+    let (x, y, z) := covCoefAbs n (c.2 + 1) (r.2 + 1)
+    (acc.1 + w * x, acc.2.1 + w * y, acc.2.2 + w * z)) acc) ((0, 0, 0) : Rat × Rat × Rat)
+  (sqr b * acc.1 + sqr a * acc.2.1 + a * b * acc.2.2) / den
 
 def olsScaleFromRows (rows : List MsdRow) (n : Nat) (dt : Rat) (essMean : Rat) : Est :=
   let pts := ptsOf rows
